@@ -400,4 +400,223 @@ theorem centroid_of_point_source (m n p q : ℕ) (hp : p < m) (hq : q < n) (c : 
 example : comY (delta 1 2 3) 3 4 = 1 ∧ comX (delta 1 2 3) 3 4 = 2 :=
   com_delta 3 4 1 2 (by decide) (by decide) 3 (by norm_num)
 
+/-! ## compositions: one convention means pads compose with pads, crops with crops, and the two shifts invert each other -/
+
+/-- padding `n → N` and then `N → P` places the data exactly where the single pad `n → P` does (any parities) -/
+theorem pad_pad_compose (n N P : Int) :
+    padBefore n N + padBefore N P = padBefore n P ∧ padSliceLo n N + padSliceLo N P = padSliceLo n P := by
+  constructor <;> (try simp only [padBefore, padSliceLo, Model.C04.padBefore]) <;> omega
+
+/-- cropping `n → N` and then `N → P` keeps exactly the block the single crop `n → P` keeps -/
+theorem crop_crop_compose (n N P : Int) : cropLo n N + cropLo N P = cropLo n P := by
+  (try simp only [cropLo, Model.C04.cropLeft]) <;> omega
+
+/-- `pad2d(crop_center(x))` agrees with `x` on the block: a padded sample that comes from input sample `(a, b)` is
+in range, and the crop of the same pair of shapes reads it back from where the pad wrote it -/
+theorem pad2_src_in_range (n0 n1 N0 N1 i j a b : Int) (h : pad2Src n0 n1 N0 N1 i j = some (a, b)) :
+    0 ≤ a ∧ a < n0 ∧ 0 ≤ b ∧ b < n1 ∧ crop2Src N0 N1 n0 n1 a b = (i, j) := by
+  obtain ⟨_, c0⟩ := crop_pad_id n0 N0
+  obtain ⟨_, c1⟩ := crop_pad_id n1 N1
+  obtain ⟨_, e0⟩ := gen_pad_slice n0 N0
+  obtain ⟨_, e1⟩ := gen_pad_slice n1 N1
+  obtain ⟨f0, _⟩ := gen_pad_slice n0 N0
+  obtain ⟨f1, _⟩ := gen_pad_slice n1 N1
+  unfold pad2Src at h
+  split at h
+  · rename_i hc
+    simp only [Option.some.injEq, Prod.mk.injEq] at h
+    obtain ⟨ha, hb⟩ := h
+    refine ⟨by omega, by omega, by omega, by omega, ?_⟩
+    unfold crop2Src
+    congr 1 <;> omega
+  · exact absurd h (by simp)
+
+example : pad2Src 4 3 7 8 2 3 = some (1, 0) := by decide
+
+/-- outside the written block a constant-mode pad holds the fill value: no input sample is mapped there -/
+theorem pad2_src_none (n0 n1 N0 N1 i j : Int)
+    (h : i < padSliceLo n0 N0 ∨ padSliceHi n0 N0 ≤ i ∨ j < padSliceLo n1 N1 ∨ padSliceHi n1 N1 ≤ j) :
+    pad2Src n0 n1 N0 N1 i j = none := by
+  unfold pad2Src
+  rw [if_neg (by omega)]
+
+example : pad2Src 4 3 7 8 0 0 = none := by decide
+
+/-- the frequency axis and the coordinate axis share one index convention: numerator `i` of
+`forward_ft_unit(dx, n)` is sample `i` of `fftrange(n)` -/
+theorem ftunit_eq_fftrange (n i : Int) (h0 : 0 ≤ i) (hi : i < n) : ftUnitNum true n i = fftrangeLo n + i := by
+  rw [ftunit_zero_at_origin n i h0 hi, fftrange_sample]
+
+example : ftUnitNum true 7 0 = fftrangeLo 7 + 0 := by decide
+
+/-- `ifftshift` undoes `fftshift` and vice versa on every axis length (odd lengths included, where the two differ) -/
+theorem shift_roundtrip (n i : Int) (h0 : 0 ≤ i) (hi : i < n) :
+    Model.C04.rollSrc n (npFftshiftBy n) (Model.C04.rollSrc n (npIfftshiftBy n) i) = i ∧
+    Model.C04.rollSrc n (npIfftshiftBy n) (Model.C04.rollSrc n (npFftshiftBy n) i) = i := by
+  have hb : npFftshiftBy n = n / 2 := (np_consts n).2.2.2
+  have hi' : npIfftshiftBy n = -(n / 2) := by
+    (try simp only [npIfftshiftBy, Model.C04.npIfftshiftBy]) <;> omega
+  have e : i % n = i := Int.emod_eq_of_lt h0 hi
+  constructor
+  · simp only [Model.C04.rollSrc, hb, hi']
+    rw [Int.emod_sub_emod]
+    have : i - -(n / 2) - n / 2 = i := by omega
+    rw [this, e]
+  · simp only [Model.C04.rollSrc, hb, hi']
+    rw [Int.emod_sub_emod]
+    have : i - n / 2 - -(n / 2) = i := by omega
+    rw [this, e]
+
+example : Model.C04.rollSrc 5 (npFftshiftBy 5) (Model.C04.rollSrc 5 (npIfftshiftBy 5) 4) = 4 := by decide
+
+/-! ## windows and lengths derived from the convention elsewhere: `autocrop`, `estimate_size`, `support`, `fourier_resample` -/
+
+/-- `psf.autocrop(data, px)`: the window has the requested full width `px` on both axes and the centroid sample lands
+on the origin sample `px // 2` of the window; axis 0 follows the row centroid, axis 1 the column centroid -/
+theorem autocrop_window (c0 c1 px : Int) :
+    autocropHi0 c0 c1 px - autocropLo0 c0 c1 px = px ∧ c0 - autocropLo0 c0 c1 px = px / 2 ∧
+    autocropHi1 c0 c1 px - autocropLo1 c0 c1 px = px ∧ c1 - autocropLo1 c0 c1 px = px / 2 := by
+  refine ⟨?_, ?_, ?_, ?_⟩ <;>
+    (try simp only [autocropLo0, autocropHi0, autocropLo1, autocropHi1, Model.C04.autocropLo, Model.C04.autocropHi]) <;> omega
+
+/-- translated `autocrop` window = the model run by the driver -/
+theorem gen_autocrop (c0 c1 px : Int) :
+    autocropLo0 c0 c1 px = Model.C04.autocropLo c0 px ∧ autocropHi0 c0 c1 px = Model.C04.autocropHi c0 px ∧
+    autocropLo1 c0 c1 px = Model.C04.autocropLo c1 px ∧ autocropHi1 c0 c1 px = Model.C04.autocropHi c1 px := by
+  obtain ⟨a, b, c, d⟩ := autocrop_window c0 c1 px
+  refine ⟨?_, ?_, ?_, ?_⟩ <;> simp only [Model.C04.autocropLo, Model.C04.autocropHi] <;> omega
+
+/-- an `autocrop` window is the `crop_center` window when the centroid sits on the origin sample -/
+theorem autocrop_is_crop_at_origin (n px : Int) : autocropLo0 (n / 2) (n / 2) px = cropLo n px := by
+  rw [(gen_autocrop _ _ _).1, (gen_crop n px).1]; simp only [Model.C04.autocropLo, Model.C04.cropLeft]
+
+/-- `estimate_size(data, dx=dx)` (fwhm, 1/e, 1/e²) measures radii on the vectors of `make_xy_grid(data.shape, dx, grid=False)`:
+x from the column count, y from the row count, zero on sample `n // 2` -/
+theorem estimate_size_grid (m n : Int) (dx : Rat) (k : Int) :
+    estSizeX m n dx k = vecX m n dx k ∧ estSizeY m n dx k = vecY m n dx k ∧
+    estSizeX m n dx (n / 2) = 0 ∧ estSizeY m n dx (m / 2) = 0 := by
+  have he : ∀ s i, estSizeElem s i dx = ((i - s / 2 : Int) : Rat) * dx := by
+    intro s i
+    (try simp only [estSizeElem, Model.C04.gridElem, fftrange_sample, fftrange_sampleM]) <;> ring
+  obtain ⟨_, _, hx, hy⟩ := grid_values m n dx k k
+  have ex : ∀ k, estSizeX m n dx k = ((k - n / 2 : Int) : Rat) * dx := by
+    intro k
+    first
+      | (simp only [estSizeX, he])
+      | (simp only [estSizeX, Model.C04.vecX, Model.C04.gridElem, fftrange_sampleM])
+  have ey : ∀ k, estSizeY m n dx k = ((k - m / 2 : Int) : Rat) * dx := by
+    intro k
+    first
+      | (simp only [estSizeY, he])
+      | (simp only [estSizeY, Model.C04.vecY, Model.C04.gridElem, fftrange_sampleM])
+  refine ⟨by rw [ex, hx], by rw [ey, hy], ?_, ?_⟩
+  · rw [ex]; simp
+  · rw [ey]; simp
+
+/-- `RichData.support_x` is the column count times `dx`, `support_y` the row count times `dx`; it is the extent of
+the coordinate vector plus one sample -/
+theorem support_axes (m n : Int) (dx : Rat) :
+    supportX m n dx = (n : Rat) * dx ∧ supportY m n dx = (m : Rat) * dx ∧
+    vecX m n dx (n - 1) - vecX m n dx 0 + dx = supportX m n dx ∧
+    vecY m n dx (m - 1) - vecY m n dx 0 + dx = supportY m n dx := by
+  have hx : supportX m n dx = (n : Rat) * dx := by
+    (try simp only [supportX, Model.C04.supportX]) <;> ring
+  have hy : supportY m n dx = (m : Rat) * dx := by
+    (try simp only [supportY, Model.C04.supportY]) <;> ring
+  refine ⟨hx, hy, ?_, ?_⟩
+  · rw [hx, (grid_values m n dx 0 (n - 1)).2.2.1, (grid_values m n dx 0 0).2.2.1]; push_cast; ring
+  · rw [hy, (grid_values m n dx (m - 1) 0).2.2.2, (grid_values m n dx 0 0).2.2.2]; push_cast; ring
+
+/-- `fourier_resample`: the shift applied before the FFT brings the origin sample `n // 2` to FFT index 0, the one after
+it puts the zero-frequency bin on `n // 2` (the spectrum handed to the matrix DFT is centred), and axis `k` of the
+output has `int(shape[k] * zoom[k])` samples -/
+theorem resample_origin (n : Int) (hn : 1 ≤ n) (m' n' : Int) (z0 z1 : Rat) :
+    Model.C04.rollSrc n (resamplePre n) 0 = n / 2 ∧ Model.C04.rollSrc n (resamplePost n) (n / 2) = 0 ∧
+    resampleOut0 m' n' z0 z1 = Model.C04.resampleOut m' z0 ∧ resampleOut1 m' n' z0 z1 = Model.C04.resampleOut n' z1 := by
+  have hb : npFftshiftBy n = n / 2 := (np_consts n).2.2.2
+  have hi : npIfftshiftBy n = -(n / 2) := by
+    (try simp only [npIfftshiftBy, Model.C04.npIfftshiftBy]) <;> omega
+  have hbM : Model.C04.npFftshiftBy n = n / 2 := rfl
+  have hiM : Model.C04.npIfftshiftBy n = -(n / 2) := rfl
+  have e1 : (0 - -(n / 2)) % n = n / 2 := by
+    rw [zero_sub, neg_neg]; exact Int.emod_eq_of_lt (by omega) (by omega)
+  have e2 : (n / 2 - n / 2) % n = 0 := by simp
+  refine ⟨?_, ?_, ?_, ?_⟩
+  · simp only [resamplePre, Model.C04.rollSrc, hb, hi, hbM, hiM, e1, e2]
+  · simp only [resamplePost, Model.C04.rollSrc, hb, hi, hbM, hiM, e1, e2]
+  · first | rfl | simp only [resampleOut0, Model.C04.resampleOut, mul_comm]
+  · first | rfl | simp only [resampleOut1, Model.C04.resampleOut, mul_comm]
+
+example : Model.C04.rollSrc 7 (resamplePre 7) 0 = 3 ∧ Model.C04.rollSrc 7 (resamplePost 7) 3 = 0 := by decide
+
+/-- zero padding does not move the spatial centroid of ANY data with non-zero total (not only a point source): the
+centre of mass moves by the pad offset, the reference index moves from `m // 2` to `M // 2`, and the two cancel for
+every parity combination — `centroid(pad2d(d), dx) = centroid(d, dx)` -/
+theorem centroid_pad_invariant (d : ℕ → ℕ → ℚ) (m n M N lo0 lo1 : ℕ) (hm : m ≤ M) (hn : n ≤ N)
+    (hl0 : (lo0 : Int) = padSliceLo m M) (hl1 : (lo1 : Int) = padSliceLo n N)
+    (ht : ∑ i ∈ Finset.range m, ∑ j ∈ Finset.range n, d i j ≠ 0) (dx : ℚ) :
+    centroidSpatialElem dx (comY (padded d m n lo0 lo1) M N) M = centroidSpatialElem dx (comY d m n) m ∧
+    centroidSpatialElem dx (comX (padded d m n lo0 lo1) M N) N = centroidSpatialElem dx (comX d m n) n := by
+  obtain ⟨a0, a1, a2, a3⟩ := pad_slice_in_bounds (m : Int) (M : Int) (by omega) (by exact_mod_cast hm)
+  obtain ⟨b0, b1, b2, b3⟩ := pad_slice_in_bounds (n : Int) (N : Int) (by omega) (by exact_mod_cast hn)
+  have h0 : lo0 + m ≤ M := by
+    have : (lo0 : Int) + m ≤ M := by omega
+    exact_mod_cast this
+  have h1 : lo1 + n ≤ N := by
+    have : (lo1 : Int) + n ≤ N := by omega
+    exact_mod_cast this
+  obtain ⟨hy, hx⟩ := com_padded d m n M N lo0 lo1 h0 h1 ht
+  have c0 : ((((M : Int) / 2 : Int)) : ℚ) = (lo0 : ℚ) + ((((m : Int) / 2 : Int)) : ℚ) := by
+    have : (M : Int) / 2 = (lo0 : Int) + (m : Int) / 2 := by omega
+    rw [this]; push_cast; ring
+  have c1 : ((((N : Int) / 2 : Int)) : ℚ) = (lo1 : ℚ) + ((((n : Int) / 2 : Int)) : ℚ) := by
+    have : (N : Int) / 2 = (lo1 : Int) + (n : Int) / 2 := by omega
+    rw [this]; push_cast; ring
+  constructor
+  · rw [(centroid_return _ _ _).1, (centroid_return _ _ _).1, hy, c0]; ring
+  · rw [(centroid_return _ _ _).1, (centroid_return _ _ _).1, hx, c1]; ring
+
+/-- the hypotheses of `centroid_pad_invariant` are met by a concrete pad (3×3 → 6×7, even and odd targets) -/
+example : ((2 : ℕ) : Int) = padSliceLo (3 : ℕ) (6 : ℕ) ∧ ((2 : ℕ) : Int) = padSliceLo (3 : ℕ) (7 : ℕ) ∧
+    ∑ i ∈ Finset.range 3, ∑ j ∈ Finset.range 3, delta 1 1 3 i j ≠ 0 := by
+  refine ⟨by decide, by decide, ?_⟩
+  rw [show (∑ i ∈ Finset.range 3, ∑ j ∈ Finset.range 3, delta 1 1 3 i j) = 3 from by
+    simpa using sum_delta (fun _ _ => 1) 3 3 1 1 (by decide) (by decide) 3]
+  norm_num
+
+/-! ## members derived from the coordinates -/
+
+/-- `RichData.r` / `.t` are the first / second result of `cart_to_polar(x = self.x, y = self.y)`; the polar cache of `Slices`
+(azimuthal statistics) is `uniform_cart_to_polar(x = self._x, y = self._y, data = self._source)`; `exact_x` / `exact_y`
+interpolate the (coordinates, values) pair of the x / y slice; `exact_xy` builds and queries its interpolator in
+(y, x) = (row, column) order (argument bindings read off the calls, keyword or positional) -/
+theorem gen_structure_derived :
+    richPolarBinds = true ∧ slicesPolarBinds = true ∧ exact1dBinds = true ∧ exact2dBinds = true := by
+  decide
+
+/-- `propagation.focus` / `unfocus` pad with `fttools.pad2d(array = wavefunction, Q = Q)` before the centred FFT, so the
+padded route inherits `pad_origin` and `fft_route_origin` -/
+theorem gen_structure_focus_pad : focusPadBinds = true := by
+  decide
+
+/-- user-assigned coordinates: when the coordinate vector is `(k − c0)·dx` for ANY in-range `c0` (not only `len // 2`) and
+`dx ≠ 0`, every argmin meeting its specification is `c0` — `Slices` follows the zero of the coordinates it is given -/
+theorem slices_follow_user_origin (am : (Int → Rat) → Int → Int) (ham : IsArgminAbs am) (len c0 : Int)
+    (h0 : 0 ≤ c0) (h1 : c0 < len) (dx : Rat) (hdx : dx ≠ 0) (v : Int → Rat)
+    (hv : ∀ k, v k = ((k - c0 : Int) : Rat) * dx) : am v len = c0 := by
+  obtain ⟨a0, a1, hmin⟩ := ham v len (by omega)
+  have h := hmin c0 h0 h1
+  rw [hv c0, hv (am v len)] at h
+  simp only [sub_self, Int.cast_zero, zero_mul, abs_zero] at h
+  have hz : ((am v len - c0 : Int) : Rat) * dx = 0 := abs_nonpos_iff.1 h
+  rcases mul_eq_zero.1 hz with h | h
+  · have : am v len - c0 = 0 := by exact_mod_cast h
+    omega
+  · exact absurd h hdx
+
+/-- the hypotheses of `slices_follow_user_origin` are satisfiable (an argmin exists; `c0 = 2`, `len = 5`, `dx = 1/2`) -/
+example : ∃ am, IsArgminAbs am ∧ (0 : Int) ≤ 2 ∧ (2 : Int) < 5 ∧ ((1 : Rat) / 2) ≠ 0 := by
+  obtain ⟨am, h⟩ := isArgminAbs_exists
+  exact ⟨am, h, by decide, by decide, by norm_num⟩
+
 end C04
